@@ -8,9 +8,11 @@ namespace Claripy.Solver
 abbrev CLInv0 (U : List Con) (s : St) : Prop := CLInv (fun _ => True) U s
 
 /-- **Registry** (hash-consing, C06): among the constraints a run can see — the user's, `false`, the simplifier's
-output — equal ids mean equal meaning; all of them are well formed -/
+output — equal ids mean equal meaning and equal variable sets (the id is the hash of the AST); all of them are well formed -/
 structure Reg (R : Con → Prop) (E : Env) : Prop where
   faithful : ∀ c c', R c → R c' → c.id = c'.id → ∀ a, c.sem a = c'.sem a
+  /-- one AST, one variable set (used by the composite: a constraint `combine` drops as a duplicate brings no new variable) -/
+  varsId : ∀ c c', R c → R c' → c.id = c'.id → c.vars = c'.vars
   wf : ∀ c, R c → ConWf c
   simp_closed : ∀ cs k, (∀ c ∈ cs, R c) → ∀ c ∈ E.simp cs k, R c
   falseR : R E.falseCon
